@@ -37,6 +37,31 @@ Definition attr_coerce (e : engine) (a : attr_val) : attr_val :=
   | _ => match a with ANone => AStr 0 | ATrue => AStr 1 | AFalse => AStr 2 | other => other end
   end.
 
+(* the dtype a variable is written with by a netCDF engine: xarray writes the on-disk dtype it REMEMBERS from an
+   earlier load (variable.encoding["dtype"]) unless save_ds forgets it first.  The rule, as data: the remembered
+   kinds it forgets, for data of which kinds, unless the variable is packed (scale_factor / add_offset); it sits in
+   the netCDF branch only (joblib pickles the data as it is; zarr is left alone). *)
+Inductive dkind := KInt | KUInt | KFloat | KComplex | KBool | KStr.
+Definition dkind_eqb (a b : dkind) : bool :=
+  match a, b with
+  | KInt, KInt | KUInt, KUInt | KFloat, KFloat | KComplex, KComplex | KBool, KBool | KStr, KStr => true
+  | _, _ => false
+  end.
+Definition kmem (k : dkind) (l : list dkind) : bool := existsb (dkind_eqb k) l.
+Record dtype_rule := mk_dtype_rule { dr_disk : list dkind; dr_data : list dkind; dr_unless_packed : bool }.
+Definition model_dtype_rule : dtype_rule := mk_dtype_rule [KInt; KUInt] [KFloat] true.
+Definition forgets (r : dtype_rule) (remembered : dkind) (data : dkind) (packed : bool) : bool :=
+  kmem remembered (dr_disk r) && kmem data (dr_data r) && negb (dr_unless_packed r && packed).
+Definition written_kind (r : dtype_rule) (e : engine) (remembered : option dkind) (data : dkind) (packed : bool) : dkind :=
+  match e, remembered with
+  | Ejoblib, _ => data
+  | Ezarr, Some k => k
+  | _, Some k => if forgets r k data packed then data else k
+  | _, None => data
+  end.
+Definition enc_dkind (k : dkind) : val :=
+  VS (match k with KInt => "i" | KUInt => "u" | KFloat => "f" | KComplex => "c" | KBool => "b" | KStr => "U" end)%string.
+
 (* how a site derives the path it touches from the user's data name *)
 Inductive path_expr := PRaw | PResolved | PRawTmp | PResolvedTmp.
 Record sites := {
